@@ -29,17 +29,19 @@ theorem C12_style_equiv_bucket (b : Bytes) (h : slash ∉ b) (hne : b ≠ []) :
     parsePathStyle (slash :: b) = parseVirtualHostedStyle (some b) [slash] :=
   style_equiv_bucket b h hne
 
-/-- end to end at the glue of `prepare`: the virtual-hosted-style request (host `b.d` for a
-    configured base domain `d`, path `/e`) and the path-style request (`/b/e`, handled path-style)
-    have the same outcome — same bucket and key or same error — for *every* raw path rest `e`
-    (well-formed escapes or not) and every ASCII label `b` without `%` and `/` -/
-theorem C12_classify_style_equiv (cfg cfg' : HostCfg) (host' : Option Bytes) (d b e : Bytes)
-    (hc : ConfiguredDomain cfg d) (hs : headerToStrOk (b ++ dot :: d) = true)
-    (hip : isSocketAddrOrIpAddr (b ++ dot :: d) = false) (hps : PathStyleChosen cfg' host')
+/-- end to end at the glue of `prepare`: the virtual-hosted-style request (host `b.t`, `t` being
+    a configured base domain `d` written in any ASCII case, path `/e`) and the path-style request
+    (`/b/e`, handled path-style) have the same outcome — same bucket and key or same error — for
+    *every* raw path rest `e` (well-formed escapes or not) and every ASCII label `b` without `%`
+    and `/` -/
+theorem C12_classify_style_equiv (cfg cfg' : HostCfg) (host' : Option Bytes) (d t b e : Bytes)
+    (hc : ConfiguredDomain cfg d) (ht : toAsciiLower t = toAsciiLower d)
+    (hs : headerToStrOk (b ++ dot :: t) = true)
+    (hip : isSocketAddrOrIpAddr (b ++ dot :: t) = false) (hps : PathStyleChosen cfg' host')
     (hb1 : ∀ c ∈ b, c.toNat < 128) (hb2 : pct ∉ b) (hb3 : slash ∉ b) :
-    classify cfg (some (b ++ dot :: d)) (slash :: e) =
+    classify cfg (some (b ++ dot :: t)) (slash :: e) =
       classify cfg' host' (slash :: (b ++ slash :: e)) :=
-  classify_style_equiv hc hs hip hps hb1 hb2 hb3 e
+  classify_style_equiv hc ht hs hip hps hb1 hb2 hb3 e
 
 /-! ## keys arrive verbatim, decoded exactly once -/
 
@@ -54,15 +56,16 @@ theorem C12_key_verbatim (cfg : HostCfg) (host : Option Bytes) (b k e : Bytes)
     classify cfg host e = .ok (.object b k) := by
   rw [classify_path_result hps hb hu hsp, parseVirtualHostedStyle_object hb hk0 hk]; rfl
 
-/-- virtual-hosted-style: host `b.d` for a configured base domain `d` (the single domain, or a
-    member of a list accepted by `MultiDomain::new`), the host not being an IP / socket address;
-    every percent-spelling `e` of `/k` resolves to `Object b k` -/
-theorem C12_key_verbatim_vhost (cfg : HostCfg) (d b k e : Bytes) (hc : ConfiguredDomain cfg d)
-    (hs : headerToStrOk (b ++ dot :: d) = true) (hip : isSocketAddrOrIpAddr (b ++ dot :: d) = false)
+/-- virtual-hosted-style: host `b.t` where `t` is a configured base domain `d` (the single domain,
+    or a member of an accepted list) written in any ASCII case, the host not being an IP / socket
+    address; every percent-spelling `e` of `/k` resolves to `Object b k` -/
+theorem C12_key_verbatim_vhost (cfg : HostCfg) (d t b k e : Bytes) (hc : ConfiguredDomain cfg d)
+    (ht : toAsciiLower t = toAsciiLower d)
+    (hs : headerToStrOk (b ++ dot :: t) = true) (hip : isSocketAddrOrIpAddr (b ++ dot :: t) = false)
     (hb : checkBucketName b = true) (hk0 : 0 < k.length) (hk : k.length ≤ 1024)
     (hu : utf8Valid k = true) (hsp : Spelling e (slash :: k)) :
-    classify cfg (some (b ++ dot :: d)) e = .ok (.object b k) := by
-  rw [classify_vhost_result hc hs hip hu hsp, parseVirtualHostedStyle_object hb hk0 hk]; rfl
+    classify cfg (some (b ++ dot :: t)) e = .ok (.object b k) := by
+  rw [classify_vhost_result hc ht hs hip hu hsp, parseVirtualHostedStyle_object hb hk0 hk]; rfl
 
 /-- keys longer than 1024 bytes are refused, path-style … -/
 theorem C12_key_too_long (cfg : HostCfg) (host : Option Bytes) (b k e : Bytes)
@@ -73,12 +76,13 @@ theorem C12_key_too_long (cfg : HostCfg) (host : Option Bytes) (b k e : Bytes)
   rw [classify_path_result hps hb hu hsp, parseVirtualHostedStyle_tooLong hb hk]; rfl
 
 /-- … and virtual-hosted-style -/
-theorem C12_key_too_long_vhost (cfg : HostCfg) (d b k e : Bytes) (hc : ConfiguredDomain cfg d)
-    (hs : headerToStrOk (b ++ dot :: d) = true) (hip : isSocketAddrOrIpAddr (b ++ dot :: d) = false)
+theorem C12_key_too_long_vhost (cfg : HostCfg) (d t b k e : Bytes) (hc : ConfiguredDomain cfg d)
+    (ht : toAsciiLower t = toAsciiLower d)
+    (hs : headerToStrOk (b ++ dot :: t) = true) (hip : isSocketAddrOrIpAddr (b ++ dot :: t) = false)
     (hb : checkBucketName b = true) (hk : 1024 < k.length)
     (hu : utf8Valid k = true) (hsp : Spelling e (slash :: k)) :
-    classify cfg (some (b ++ dot :: d)) e = .error .keyTooLongError := by
-  rw [classify_vhost_result hc hs hip hu hsp, parseVirtualHostedStyle_tooLong hb hk]; rfl
+    classify cfg (some (b ++ dot :: t)) e = .error .keyTooLongError := by
+  rw [classify_vhost_result hc ht hs hip hu hsp, parseVirtualHostedStyle_tooLong hb hk]; rfl
 
 /-- percent-decoding a spelling gives the text back: exactly once (`%2541` is `%41`, not `A`) -/
 theorem C12_decode_exactly_once (e k : Bytes) (h : Spelling e k) : pctDecodeBytes e = k :=
@@ -132,52 +136,78 @@ theorem C12_multidomain_refuses_subdomains (ds : List Bytes) (d1 d2 : Bytes)
 theorem C12_multidomain_new_keeps (ds v : List Bytes) (h : multiNew ds = .ok v) : v = ds :=
   ((multiNew_ok ds v).mp h).1
 
-/-- in an accepted configuration a host belongs to at most one base domain -/
-theorem C12_multidomain_unique_match (ds v : List Bytes) (h : multiNew ds = .ok v)
+/-- FULL statement (false of the current code, see `S3V/Findings/C12.lean`): in an accepted
+    configuration a host belongs to at most one base domain. Hosts are matched without regard to
+    ASCII case, but `MultiDomain::new` tests overlap case-sensitively. -/
+def C12_multidomain_unique_match_full : Prop :=
+  ∀ (ds v : List Bytes), multiNew ds = .ok v →
+    ∀ (d1 d2 host : Bytes) (v1 v2 : VirtualHost), d1 ∈ v → d2 ∈ v →
+      parseHostHeader d1 host = some v1 → parseHostHeader d2 host = some v2 → d1 = d2
+
+/-- PARTIAL: it holds for configurations written in lower case (excluded region: some configured
+    domain contains an upper-case ASCII letter, `∃ d ∈ v, toAsciiLower d ≠ d`) -/
+theorem C12_multidomain_unique_match_partial (ds v : List Bytes) (h : multiNew ds = .ok v)
+    (hl : ∀ d ∈ v, toAsciiLower d = d)
     (d1 d2 host : Bytes) (v1 v2 : VirtualHost) (m1 : d1 ∈ v) (m2 : d2 ∈ v)
     (h1 : parseHostHeader d1 host = some v1) (h2 : parseHostHeader d2 host = some v2) : d1 = d2 := by
   obtain ⟨rfl, _, _, hp⟩ := (multiNew_ok ds v).mp h
-  exact unique_match hp m1 m2 h1 h2
+  exact unique_match (pairwiseCI_of_lower hl hp) m1 m2 h1 h2
 
-/-- hence the answer does not depend on the order in which the domains were configured -/
-theorem C12_multidomain_order_independent (ds ds' v : List Bytes) (h : multiNew ds = .ok v)
-    (hperm : ds'.Perm ds) (host : Bytes) :
+/-- FULL statement (false of the current code): the answer does not depend on the order in which
+    the domains were configured -/
+def C12_multidomain_order_independent_full : Prop :=
+  ∀ (ds ds' v : List Bytes), multiNew ds = .ok v → ds'.Perm ds → ∀ host : Bytes,
+    multiNew ds' = .ok ds' ∧ multiParse ds' host = multiParse v host
+
+/-- PARTIAL: it holds for configurations written in lower case -/
+theorem C12_multidomain_order_independent_partial (ds ds' v : List Bytes) (h : multiNew ds = .ok v)
+    (hl : ∀ d ∈ v, toAsciiLower d = d) (hperm : ds'.Perm ds) (host : Bytes) :
     multiNew ds' = .ok ds' ∧ multiParse ds' host = multiParse v host := by
   obtain ⟨rfl, hne, hval, hp⟩ := (multiNew_ok ds v).mp h
-  refine ⟨(multiNew_ok ds' ds').mpr ⟨rfl, ?_, ?_, ?_⟩, multiParse_perm hp hperm host⟩
+  refine ⟨(multiNew_ok ds' ds').mpr ⟨rfl, ?_, ?_, ?_⟩,
+    multiParse_perm (pairwiseCI_of_lower hl hp) hperm host⟩
   · intro e; rw [e] at hperm; exact hne (List.Perm.eq_nil hperm.symm)
   · intro d hd; exact hval d (hperm.subset hd)
   · exact (hperm.pairwise_iff (fun h hba => h hba.symm)).mpr hp
 
-/-! ## a host is resolved against the base domain it belongs to -/
+/-! ## a host is resolved against the configured base domain it belongs to -/
 
-/-- FULL statement (false of the current code, see `S3V/Findings/C12.lean`): a host that, compared
-    without regard to ASCII case, is `b.d` for base domain `d` is resolved against `d` -/
-def C12_host_resolution_full : Prop :=
-  ∀ d host b : Bytes, lowerAscii host = b ++ 46 :: lowerAscii d →
-    ∃ b', parseHostHeader d host = some ⟨d, some b'⟩ ∧ lowerAscii b' = b
+/-- a host that is base domain `d` written in any ASCII case is the domain itself; a host `b.t`
+    with `t` = `d` in any ASCII case (starting at a character boundary, as every `str` does) is
+    resolved against `d` with the label `b` verbatim as bucket -/
+theorem C12_host_resolution (d : Bytes) :
+    (∀ host, toAsciiLower host = toAsciiLower d → parseHostHeader d host = some ⟨d, none⟩) ∧
+    (∀ b t, toAsciiLower t = toAsciiLower d → (∀ c ∈ t.head?, c.toNat < 128 ∨ 192 ≤ c.toNat) →
+      parseHostHeader d (b ++ dot :: t) = some ⟨d, some b⟩) := by
+  refine ⟨fun host h => ?_, fun b t ht hb => parseHostHeader_sub b t d ht hb⟩
+  simp [parseHostHeader, (eqIgnoreAsciiCase_iff host d).mpr h]
 
-/-- PARTIAL: it holds when neither the host nor the domain contains an upper-case ASCII letter
-    (excluded region: `lowerAscii host ≠ host ∨ lowerAscii d ≠ d`) -/
-theorem C12_host_resolution_partial (d host b : Bytes) (hh : lowerAscii host = host)
-    (hd : lowerAscii d = d) (h : lowerAscii host = b ++ 46 :: lowerAscii d) :
-    parseHostHeader d host = some ⟨d, some b⟩ := by
-  rw [hh, hd] at h
-  rw [h]
-  exact parseHostHeader_sub b d
+/-- conversely, whatever `parse_host_header` answers names the base domain it was asked about,
+    and the host does belong to it (ASCII case ignored) -/
+theorem C12_host_resolution_sound (d host : Bytes) (vh : VirtualHost)
+    (h : parseHostHeader d host = some vh) :
+    vh.domain = d ∧ toAsciiLower d <:+ toAsciiLower host := by
+  refine ⟨?_, suffix_of_parseHostHeader h⟩
+  unfold parseHostHeader at h
+  split at h
+  · injection h with h; rw [← h]
+  · split at h
+    · injection h with h; rw [← h]
+    · cases h
+
+/-- through the configured parsers: under a single domain, and under an accepted multi-domain
+    list without case-insensitive overlaps, `b.t` resolves to bucket `b` of domain `d` -/
+theorem C12_host_resolution_configured (cfg : HostCfg) (d b t : Bytes) (hc : ConfiguredDomain cfg d)
+    (ht : toAsciiLower t = toAsciiLower d) (hb : ∀ c ∈ t.head?, c.toNat < 128 ∨ 192 ≤ c.toNat) :
+    ∃ parse, cfg.parser = some parse ∧ parse (b ++ dot :: t) = some ⟨d, some b⟩ :=
+  parser_of_configured hc b t ht hb
 
 /-! ## bucket names -/
 
-/-- FULL statement (false of the current code, see `S3V/Findings/C12.lean`): whatever
-    `check_bucket_name` accepts obeys the core naming rules -/
-def C12_accept_implies_core_full : Prop := ∀ n : Bytes, checkBucketName n = true → CoreRules n
-
-/-- PARTIAL: it holds outside the region `ipv4LooseOnlyB` — names formatted as an IP address
-    (`^(\d+\.){3}\d+$`) with an octet that a strict dotted-quad parser refuses (leading zero,
-    value above 255, more than three digits) -/
-theorem C12_accept_implies_core_partial (n : Bytes) (h : checkBucketName n = true)
-    (hx : ipv4LooseOnlyB n = false) : CoreRules n :=
-  accept_implies_core h hx
+/-- whatever `check_bucket_name` accepts obeys the core naming rules ("not formatted as an IP
+    address" read as: not four non-empty digit groups separated by periods) -/
+theorem C12_accept_implies_core (n : Bytes) (h : checkBucketName n = true) : CoreRules n :=
+  accept_implies_core h
 
 /-- every name valid under the complete S3 naming rules is accepted -/
 theorem C12_full_implies_accept (n : Bytes) (h : FullRules n) : checkBucketName n = true :=
@@ -214,7 +244,10 @@ example : Spelling exSpelling (slash :: exKey) :=
     (.enc (x := 10) (y := 9) (by decide) (by decide) (by decide) .nil))))))
 example : ConfiguredDomain (.single exDomain) exDomain := Or.inl rfl
 example : ConfiguredDomain (.multi [exDomain2, exDomain]) exDomain :=
-  Or.inr ⟨_, rfl, by decide, rfl⟩
+  Or.inr ⟨_, rfl, pairwiseCI_of_lower (by decide) ((multiNew_ok _ _).mp rfl).2.2.2, by decide, rfl⟩
+/-- `S3.Example.COM` is `s3.example.com` up to ASCII case -/
+example : toAsciiLower [83, 51, 46, 69, 120, 97, 109, 112, 108, 101, 46, 67, 79, 77] = toAsciiLower exDomain := by
+  decide
 example : headerToStrOk (exBucket ++ dot :: exDomain) = true := by decide
 example : isSocketAddrOrIpAddr (exBucket ++ dot :: exDomain) = false := by decide
 /-- `127.0.0.1:9000` and `[::1]:9000` are socket addresses, `::ffff:10.0.0.1` an IP address -/
@@ -225,8 +258,7 @@ example : PathStyleChosen (.single exDomain) (some [49, 50, 55, 46, 48, 46, 48, 
   Or.inr ⟨_, rfl, by decide, Or.inr (by decide)⟩
 example : ∃ v, multiNew [exDomain2, exDomain] = .ok v := ⟨_, rfl⟩
 example : multiNew [exDomain, exDomain2 ++ dot :: exDomain] = .error .overlappingSubdomains := rfl
-/-- kept side of the partial statements -/
-example : ipv4LooseOnlyB exBucket = false := by decide
-example : lowerAscii (exBucket ++ dot :: exDomain) = exBucket ++ dot :: exDomain := by decide
+/-- kept side of the partial statements: a configuration written in lower case -/
+example : ∀ d ∈ [exDomain2, exDomain], toAsciiLower d = d := by decide
 
 end S3V.C12
